@@ -242,3 +242,13 @@ package chain
 //@   ensures rs_get(c.MagicBlockStorage, round) == nil ==> result == payload(rs_latest(c.MagicBlockStorage)) && rs_latest(c.MagicBlockStorage) != nil
 //@   modifies c.mbMutex
 //@   lock-balanced c.mbMutex
+
+// ---------------------------------------------------------------- genesis distribution (C01)
+// Genesis hands out balances only if the contract totals of the initial-state file add up (without
+// wrapping: AddCoin) to exactly the maximum token supply - anything else panics before the initial
+// stakes are set up and the state is used.
+//@ func (*Chain).mustInitGBState
+//@   prop C01
+//@   requires c != nil && initStates != nil && stateCtx != nil
+//@   opaque addInitialStakes, SetClientState, mustInitialState, stateToUser
+//@   at-call addInitialStakes assert[genesis-total-is-the-max-supply] scTotalTokens == MAXSUPPLY
